@@ -182,7 +182,7 @@ def snapshot(root, extra_roots=()):
             extra = _inst_dict(v)
         elif isinstance(v, tuple):
             content = [visit(x) for x in tuple.__iter__(v)]
-            extra = None
+            extra = _inst_dict(v) if t is not tuple else None
         elif isinstance(v, (set, frozenset)):
             content = sorted((visit(x) for x in v), key=repr)
             extra = None
